@@ -143,7 +143,7 @@ func TestVerifC03ServerAPI(t *testing.T) {
 				segs := append([]string(nil), e.segs...)
 				for i, sg := range segs {
 					if strings.HasPrefix(sg, ":") {
-						segs[i] = []string{"a", "z", sg, ":q"}[rc.Intn(4)]
+						segs[i] = []string{"a", "z", sg, ":q", "k:v", "%41", "a%20b"}[rc.Intn(7)]
 					}
 				}
 				paths = append(paths, "/"+strings.Join(segs, "/"))
